@@ -20,11 +20,14 @@ import framework as fw
 LEVEL = "proof"
 TECHNIQUE = "Lean 4 cache state machine + effect/dependency tables regenerated from the AST + fresh-twin differential run"
 EXTRACTORS = ["lazy_ops"]
-CHECKER_MODULES = ["PyrexVerif.Proofs.LazyLemmas", "PyrexVerif.Proofs.SignalsThms"]
+CHECKER_MODULES = ["PyrexVerif.Proofs.LazyLemmas", "PyrexVerif.Proofs.SignalsThms", "PyrexVerif.Proofs.FnAlgebra"]
 RULE = ("random histories (length <= 15, thorough <= 25) per object: FunctionSignal family - read, shift, *=, /=, "
-        "filter_frequencies, set_buffers (incl. force / None / rejected negative), resample, with_times, +, copy, *; "
+        "filter_frequencies, set_buffers (incl. force / None / rejected negative), resample, with_times, +, copy, *, "
+        "in-place edit of `times` handed back as the same object (times += d; t = times; t += d; times = t); "
         "tracers and paths - assignments of from_point, to_point, ice, dz, theta0, direct and of the class-level "
-        "settings max_reflections, uniformity_factor, beta_tolerance, solution_sorting, interleaved with reads of "
+        "settings max_reflections, uniformity_factor, beta_tolerance, solution_sorting, in-place edits of an endpoint "
+        "array handed back as the same object (obj.to_point += d; p = obj.from_point; p[2] = z; obj.from_point = p), "
+        "on all four tracer families and on their paths (layered paths included), interleaved with reads of "
         "single lazy properties and of all of them; a step is non-trivial when a read preceded it and a read follows "
         "it; distinct = distinct (class, history prefix) pairs")
 LEVEL_TEXT = ("theorems: a method whose extracted effect list passes `safe` preserves cache coherence; every "
@@ -36,13 +39,20 @@ LEVEL_TEXT = ("theorems: a method whose extracted effect list passes `safe` pres
               "for by comparing with a freshly constructed twin after every step")
 LEVEL_NOTE = ("Assumed (translator, trusted base): the value of a lazy property is a function of the attributes "
               "extracted for it, and a method acts on self by the extracted effects (AST shapes outside the "
-              "understood set raise).  Outside the claim: in-place mutation of an attribute's object by the "
-              "caller (obj.from_point[0] = x, writing into a returned values array), assignment of private "
+              "understood set raise).  An in-place edit of an attribute's array that is handed back through "
+              "__setattr__ as the same object (obj.to_point += d; p = obj.from_point; p[2] = z; obj.from_point = p) "
+              "IS in the claim: the model's `assign` clears on the name whatever the value "
+              "(C06_augassign_is_assign, C06_assign_same_object_clears) and the translator requires the clear in "
+              "__setattr__ to be unconditional inside the name test.  Outside the claim: in-place mutation by the "
+              "caller WITHOUT any assignment (obj.from_point[0] = x, writing into a returned values array), assignment of private "
               "attributes, and data closed over by a signal function (FullThermalNoise.rms/amps/phases: the "
               "property quantifies over the listed operations, not over attribute assignment on signals).  "
-              "Value algebra: values_def/scale/add/shift and buffers-irrelevance are proved for the "
-              "direct (scalar-gain filter) form; values_filter_append / window_counts of DESIGN 6 are not stated "
-              "(frequency-dependent filtering is C05).  The key-set machine flattens branches, so it is compared "
+              "Value algebra: scale / add / window length / buffers-irrelevance-without-filters are proved for "
+              "filters as abstract length-preserving linear operators (Sig.FilterSem; the scalar-gain model is the "
+              "instance gainSem and fnValuesA gainSem = fnValues), window_counts as nbuf = ceil(buffer/dt); "
+              "values_def (direct form), values_shift and values_filter_append (values multiplied by the gain) are "
+              "proved for the scalar-gain instance only - that the product of frequency responses acts in one "
+              "pad/FFT/crop pass is property C05.  The key-set machine flattens branches, so it is compared "
               "as an over-approximation of the `_lazy_*` keys (exact on straight-line methods).  No theorem is partial.")
 ASSUMPTIONS = ["private attributes (leading underscore) are not assigned by users of the objects",
                "functions handed to FunctionSignal are pure functions of their argument"]
@@ -222,7 +232,9 @@ def twin_object(o):
     else:
         parent = types.SimpleNamespace(from_point=d["from_point"], to_point=d["to_point"], ice=d["ice"],
                                        dz=d.get("dz"))
-        if cls.__name__ == "UniformRayTracePath":
+        if cls.__name__ == "LayeredRayTracePath":
+            t = cls(parent, d["paths"])
+        elif cls.__name__ == "UniformRayTracePath":
             t = cls(parent, d["theta0"], d["_reflections"])
             if t.direct != d["direct"]:
                 object.__setattr__(t, "direct", d["direct"])
@@ -353,7 +365,7 @@ def signal_history(ctx, nsteps):
     for _ in range(nsteps):
         s = tr.obj
         op = rng.choice(["read", "read", "shift", "imul", "idiv", "filter", "buffers", "resample", "with_times",
-                         "add", "copy", "mul"])
+                         "add", "copy", "mul", "times_inplace", "respace"])
         ctx.run.count("sig_op_" + op)
         if op == "read":
             check_signal(ctx, tr)
@@ -364,6 +376,45 @@ def signal_history(ctx, nsteps):
             s.shift(d)
             tr.tok("call:shift")
             ctx.hist.append("shift %g" % d)
+        elif op == "respace":
+            # filter / read / new sample spacing with the SAME number of samples / read
+            if not any(len(g) for g in s._filters) or rng.random() < 0.3:
+                h, real = rng.choice(filters[:2] if kind == "FunctionSignal" else filters[1:])
+                s.filter_frequencies(h, force_real=real)
+                tr.tok("call:filter_frequencies")
+                ctx.hist.append("filter_frequencies %s" % getattr(h, "__name__", "delay"))
+            check_signal(ctx, tr)
+            ctx.hist.append("read")
+            k = rng.choice([2.0, 4.0, 0.5])
+            nt = s.times[0] - rng.choice([0.0, 1.0]) * unit + (s.times - s.times[0]) * k
+            if rng.random() < 0.5:
+                s.times = nt
+                tr.tok("a:times")
+                ctx.hist.append("times = <same length, spacing x%g>" % k)
+            else:
+                new = s.with_times(nt)
+                tr.tok("call:with_times")
+                ntr = Tracked(new, "FunctionSignal", ["call:with_times@new_signal"])
+                ntr.keys.append(keyset(new))
+                ctx.tracked.append(ntr)
+                tr = ntr
+                ctx.hist.append("with_times <same length, spacing x%g> ; (continue on the result)" % k)
+            check_signal(ctx, tr)
+            ctx.hist.append("read")
+            continue
+        elif op == "times_inplace":
+            # the array is changed in place and the SAME object is handed to __setattr__:
+            # `sig.times += d`, or fetch / edit / assign back
+            d = rng.choice([0.5, -1.0, 2.0]) * unit
+            if rng.random() < 0.5:
+                s.times += d
+                ctx.hist.append("times += %g (in place)" % d)
+            else:
+                t = s.times
+                t += d
+                s.times = t
+                ctx.hist.append("t = times; t += %g; times = t (same object)" % d)
+            tr.tok("a:times")
         elif op == "imul":
             k = rng.choice([2.0, -0.5])
             s *= k
@@ -403,7 +454,14 @@ def signal_history(ctx, nsteps):
                 a, b = rng.randint(0, 2), rng.randint(0, 2)
                 if len(s.times) - a - b < 4:
                     continue
-                nt = s.times[a:len(s.times) - b].copy() if rng.random() < 0.7 else s.times + rng.choice([0.5, 3.0]) * unit
+                q = rng.random()
+                if q < 0.55:
+                    nt = s.times[a:len(s.times) - b].copy()
+                elif q < 0.75:
+                    nt = s.times + rng.choice([0.5, 3.0]) * unit
+                else:       # same number of samples, different sample spacing
+                    nt = s.times[0] + (s.times - s.times[0]) * rng.choice([2.0, 0.5, 4.0])
+                    ctx.run.count("with_times_new_spacing")
                 new = s.with_times(nt)
                 entry = "with_times"
             elif op == "add":
@@ -483,7 +541,7 @@ def object_history(ctx, nsteps):
             check_object(ctx, tr, names)
             ctx.hist.append("read %s" % (names or "all"))
             continue
-        if r < 0.42 and is_tracer and type(o).__name__ != "LayeredRayTracer":
+        if r < 0.42 and is_tracer:
             # descend into a path of the current solutions
             check_object(ctx, tr, ["solutions"])      # first, so that the model is told about the reads
             try:
@@ -503,9 +561,44 @@ def object_history(ctx, nsteps):
                 tr = ptr
                 ctx.hist.append("descend into solution %d (%s)" % (sols.index(p), type(p).__name__))
             continue
+        cname = type(o).__name__
+        if r < 0.56:
+            # in-place change of an endpoint array, then the SAME object goes through __setattr__
+            attr = rng.choice(["from_point", "to_point"])
+            cur = getattr(o, attr)
+            target = np.array(rnd_point(rng, True)) if attr == "from_point" else \
+                np.array((rng.uniform(60, 400), rng.uniform(-40, 40), rng.uniform(-150, -20)))
+            if not (isinstance(cur, np.ndarray) and cur.dtype == float):
+                setattr(o, attr, np.array(cur, dtype=float))      # (make it an editable float array first)
+                tr.tok("a:" + attr)
+                cur = getattr(o, attr)
+            how = rng.randrange(3)
+            if how == 0:
+                delta = target - cur
+                if attr == "from_point":
+                    o.from_point += delta
+                else:
+                    o.to_point += delta
+                ctx.hist.append("%s.%s += %s (in place)" % (cname, attr, [round(float(x), 3) for x in delta]))
+            elif how == 1:
+                p = getattr(o, attr)
+                p[2] = target[2]
+                p[0] = target[0]
+                setattr(o, attr, p)
+                ctx.hist.append("p = %s.%s; p[0], p[2] = %.3f, %.3f; %s = p (same object)" % (cname, attr, target[0], target[2], attr))
+            else:
+                p = getattr(o, attr)
+                p[...] = target
+                setattr(o, attr, p)
+                ctx.hist.append("p = %s.%s; p[...] = %s; %s = p (same object)" % (cname, attr, [round(float(x), 3) for x in target], attr))
+            tr.tok("a:" + attr)
+            ctx.run.count("assign_same_object_" + attr)
+            if rng.random() < 0.75:
+                check_object(ctx, tr, None if rng.random() < 0.5 else [rng.choice(lazy_names(o))])
+                ctx.hist.append("read")
+            continue
         # an assignment
         choices = ["from_point", "to_point"]
-        cname = type(o).__name__
         if "ice" in o.__dict__ and cname not in ("LayeredRayTracer", "LayeredRayTracePath"):
             choices.append("ice")
         if "dz" in o.__dict__:
@@ -606,6 +699,7 @@ def correspondence(run):
                            observed=ctx.fail, expected="every lazy attribute equals the freshly constructed twin's",
                            what=ctx.fail)
         for tr in ctx.tracked:
+            run.count("tracked_" + tr.cls_name)
             info = class_info(tr.cls_name)
             if info is None:
                 ok = False
